@@ -15,7 +15,7 @@ MODEL_FUNCTIONS = ["repair_dna", "path_matching", "set_vt", "dna_to_number"]
 RULE = ("graphs produced by the implementation's own graph generation, order 1..3 (thorough 4), thresholds 1..4; walks of length "
         "3k+2 .. 12k+4 from retained vertices; for each sampled walk EVERY single edit with position in [k, n-2k) (every "
         "position x substitution by each other nucleotide / insertion of each nucleotide / deletion), and random admissible "
-        "edit sets of size 2..4 (pairwise >= 3k+2 apart); check absent or the check of the original walk; indel handling on "
+        "edit sets of size 2..4 (pairwise >= 3k+2 apart), twin-window pairs, and PLANTED repeats of order 3..5 (a 2k+3..4k segment planted twice, the second copy optionally differing in exactly the symbol that is then substituted, the same edit at the same offset near the start of both copies, preferring substitutions noticed two or more symbols late); check absent or the check of the original walk; indel handling on "
         "(and off for substitution-only sets); heap 1e9.  Oracle: single edit detected exactly when the corrupted strand is "
         "no longer a walk; whenever detected == number of edits the original walk is among the candidates.  non-trivial = "
         "corrupted strand differs from the walk; distinct by payload")
@@ -90,6 +90,74 @@ def payloads(rng, tier):
         c = rng.choice([x for x in NUC if x != w[a]]) if kind == "S" else rng.choice(NUC)
         yield "multi", {"k": k, "rows": rows, "v0": v0, "w": w, "edits": [[kind, a, c], [kind, b, c]], "vt": rng.random() < 0.3,
                         "indel": True}
+    # PLANTED repeats on larger orders (k = 3..5): a segment of the walk (2k+3 .. 4k symbols) is planted a second time further on
+    # (the walk is re-grown after it), and the same edit is applied at the same offset of both copies: the two error sites agree
+    # on a long window around the error and differ before it
+    for _ in range({"quick": 1500, "thorough": 12000, "search": 1500}[tier]):
+        import numpy as np
+        k = rng.choice([3, 4, 4, 4, 4, 5])
+        mask = gen.random_mask(rng, k, rng.choice([0.75, 0.85, 0.92]))
+        if rng.random() < 0.6:
+            try:
+                f = gen.make_filter({"k": k, "run": rng.choice([2, 3]), "gc": None, "motifs": None})
+                mask = [1 if f.valid(gen.kmer(v, k)) else 0 for v in range(4 ** k)]
+            except ValueError:
+                pass
+        try:
+            v, acc = dsw.connect_coding_graph(observed_length=k, vertices=np.array(mask, dtype=int), threshold=rng.choice([1, 2, 2]))
+        except ValueError:
+            continue
+        rows = acc.tolist()
+        v0 = rng.choice(gen.live_vertices(rows))
+        m = rng.randint(2 * k + 3, 4 * k)
+        head = gen.random_walk(rng, rows, v0, rng.randint(k, 2 * k) + m)
+        if len(head) < m + k:
+            continue
+        a0 = len(head) - m
+        seg = head[a0:]
+        # the edit sits near the START of the planted segment, so that the symbols a few places before the error differ between
+        # the two sites while everything from there up to k symbols behind the detection point agrees
+        off = rng.randint(0, k) if rng.random() < 0.8 else rng.randint(k, m - k - 2)
+        # in half of the cases the second copy differs from the first in exactly the symbol that is going to be edited: after
+        # the same substitution the two CORRUPTED sites read the same although their repairs differ
+        seg2 = seg
+        if rng.random() < 0.6:
+            y = rng.choice([x for x in NUC if x != seg[off]])
+            seg2 = seg[:off] + y + seg[off + 1:]
+        w = None
+        for _try in range(30):
+            mid = gen.random_walk(rng, rows, gen.end_vertex(rows, v0, head), rng.randint(k + 2, 3 * k + 4))
+            cand = head + mid + seg2
+            if len(mid) >= k + 2 and gen.is_walk(rows, v0, cand) and mid[-2:] != head[a0 - 2: a0]:
+                tail = gen.random_walk(rng, rows, gen.end_vertex(rows, v0, cand), 2 * k + 2)
+                if len(tail) == 2 * k + 2:
+                    w = cand + tail
+                    b0 = len(head) + len(mid)
+                    break
+        if w is None or b0 - a0 < 3 * k + 2:
+            continue
+        kind = rng.choice("SSSID") if seg2 == seg else "S"
+        if kind == "S":
+            free = [x for x in NUC if x != seg[off] and x != seg2[off]]
+            # shape the input: prefer a substitution that both sites notice late (two or more symbols after the edit)
+
+            def delay(pos, x):
+                sx = w[:pos] + x + w[pos + 1:]
+                v = v0
+                for i, ch in enumerate(sx):
+                    v = rows[v][NUC.index(ch)]
+                    if v < 0:
+                        return i - pos if i >= pos else -1
+                return -1
+            late = [x for x in free if delay(a0 + off, x) >= 2 and delay(b0 + off, x) >= 2]
+            seen = [x for x in free if delay(a0 + off, x) >= 0 and delay(b0 + off, x) >= 0]
+            if not seen and rng.random() < 0.9:
+                continue
+            c = rng.choice(late or seen or free)
+        else:
+            c = rng.choice(NUC)
+        yield "multi", {"k": k, "rows": rows, "v0": v0, "w": w, "edits": [[kind, a0 + off, c], [kind, b0 + off, c]],
+                        "vt": rng.random() < 0.3, "indel": kind != "S" or rng.random() < 0.5}
     for _ in range(multi):
         k, rows, v0 = fresh()
         m = rng.randint(2, 4)
